@@ -1020,6 +1020,8 @@ class eigenbasis_of(basis_context_manager):
     def __init__(self, operator):
         super().__init__()
         self.op = operator
+        # operator of the enclosing context (if any) is restored on exit
+        self.previous_op = self.manager.current_basis_operator
         self.manager.store_current_basis_operator(self.op)
         
         
@@ -1086,7 +1088,7 @@ class eigenbasis_of(basis_context_manager):
                 if op not in ops_above:
                     self.manager.register_with_basis(nb,op)
             
-        self.manager.remove_current_basis_operator()
+        self.manager.store_current_basis_operator(self.previous_op)
             
         del self.manager.basis_registered[bb]
 
